@@ -978,24 +978,6 @@ Definition micro_spur (A : agent) (S : shared) : option out :=
   | _ => None
   end.
 
-Definition merge (o o' : out) : out :=
-  mkout (o_a o') (o_s o') (o_ev o ++ o_ev o')
-        (match o_new o with Some x => Some x | None => o_new o' end)
-        (o_ntf o ++ o_ntf o').
-
-(* run the thread-local code up to the next scheduling point *)
-Fixpoint settle (fuel : nat) (o : out) : option out :=
-  let pc := a_pc (o_a o) in
-  if is_local pc then
-    match fuel with
-    | O => None
-    | S f => match micro (o_a o) (o_s o) with
-             | Some o' => settle f (merge o o')
-             | None => None
-             end
-    end
-  else Some o.
-
 End Micro.
 
 (* ------------------------------------------------------------------ *)
@@ -1038,10 +1020,53 @@ Fixpoint notify_all (l : list N) (m : fmap agent) : fmap agent :=
                               end)
   end.
 
-Definition apply_out (s : state) (a : N) (o : out) : state * list ev :=
+(* the effect of one micro-step of agent [a] on the global state *)
+Definition apply1 (s : state) (a : N) (o : out) : state :=
   let m1 := put (ags s) a (o_a o) in
   let m2 := match o_new o with Some (a', A') => put m1 a' A' | None => m1 end in
-  (mkstate (tick (o_s o)) (notify_all (o_ntf o) m2), o_ev o).
+  mkstate (o_s o) (notify_all (o_ntf o) m2).
+
+Definition mstep (c : cfg) (s : state) (a : N) : option (state * list ev) :=
+  match get (ags s) a with
+  | Some A => match micro c a A (sh s) with
+              | Some o => Some (apply1 s a o, o_ev o)
+              | None => None
+              end
+  | None => None
+  end.
+
+(* run agent [a]'s thread-local code up to its next scheduling point *)
+Fixpoint settle (fuel : nat) (c : cfg) (a : N) (s : state) (evs : list ev) : option (state * list ev) :=
+  match get (ags s) a with
+  | Some A =>
+      if is_local (a_pc A) then
+        match fuel with
+        | O => None
+        | S f => match mstep c s a with
+                 | Some (s', e) => settle f c a s' (evs ++ e)
+                 | None => None
+                 end
+        end
+      else Some (s, evs)
+  | None => None
+  end.
+
+Definition ticked (r : option (state * list ev)) : option (state * list ev) :=
+  match r with
+  | Some (s, e) => Some (mkstate (tick (sh s)) (ags s), e)
+  | None => None
+  end.
+
+(* a call that creates a handle names the agent that receives it: it must not exist yet *)
+Definition fresh_target (s : state) (a : N) (cl : call) : bool :=
+  match cl with
+  | CClone a' | CAddStream a' => negb (a' =? a) && match get (ags s) a' with None => true | Some _ => false end
+  | _ => true
+  end.
+
+Definition begin_call (s : state) (a : N) (A : agent) (cl : call) (pc : pcl) : state :=
+  let A1 := at_pc pc (withr (set_r_res RNoRes (set_r_call cl (a_r A))) (set_a_notified false A)) in
+  mkstate (hist (HCall a cl (g_clock (sh s))) (sh s)) (put (ags s) a A1).
 
 Definition stepx (c : cfg) (s : state) (l : label) : option (state * list ev) :=
   match l with
@@ -1050,12 +1075,8 @@ Definition stepx (c : cfg) (s : state) (l : label) : option (state * list ev) :=
       | Some A =>
           match a_pc A, a_alive A, entry c (a_role A) cl with
           | Idle, true, Some pc =>
-              let A1 := at_pc pc (withr (set_r_res RNoRes (set_r_call cl (a_r A))) (set_a_notified false A)) in
-              let S1 := hist (HCall a cl (g_clock (sh s))) (sh s) in
-              match settle c a FUEL (mkout A1 S1 [EStart cl] None []) with
-              | Some o => Some (apply_out s a o)
-              | None => None
-              end
+              if fresh_target s a cl then ticked (settle FUEL c a (begin_call s a A cl pc) [EStart cl])
+              else None
           | _, _, _ => None
           end
       | None => None
@@ -1064,11 +1085,8 @@ Definition stepx (c : cfg) (s : state) (l : label) : option (state * list ev) :=
       match get (ags s) a with
       | Some A =>
           if enabled a A (sh s) then
-            match micro c a A (sh s) with
-            | Some o => match settle c a FUEL o with
-                        | Some o' => Some (apply_out s a o')
-                        | None => None
-                        end
+            match mstep c s a with
+            | Some (s', e) => ticked (settle FUEL c a s' e)
             | None => None
             end
           else None
@@ -1078,10 +1096,7 @@ Definition stepx (c : cfg) (s : state) (l : label) : option (state * list ev) :=
       match get (ags s) a with
       | Some A =>
           match micro_spur c A (sh s) with
-          | Some o => match settle c a FUEL o with
-                      | Some o' => Some (apply_out s a o')
-                      | None => None
-                      end
+          | Some o => ticked (settle FUEL c a (apply1 s a o) (o_ev o))
           | None => None
           end
       | None => None
